@@ -80,6 +80,8 @@ pub struct Mix {
     pub newlines: bool,
     pub multibyte: bool,
     pub script_fail: bool,
+    /// some parties keep writing after a failed step
+    pub lenient: bool,
 }
 
 pub const N_KINDS: usize = 22;
@@ -166,6 +168,7 @@ pub fn gen_mix(r: &mut Rng) -> Mix {
         newlines: r.chance(2, 3),
         multibyte: r.chance(1, 2),
         script_fail: r.chance(1, 4),
+        lenient: r.chance(1, 4),
     }
 }
 
@@ -182,6 +185,10 @@ pub fn gen_script(r: &mut Rng, m: &Mix, depth: u32, budget: &mut usize) -> Scrip
     if m.script_fail && r.chance(1, 6) {
         let at = r.below(acts.len() + 1);
         acts.insert(at, Action::Fail);
+    }
+    if m.lenient && r.chance(1, 3) {
+        let at = r.below(acts.len() + 1);
+        acts.insert(at, Action::Lenient(if r.chance(1, 2) { 1 } else { 2 }));
     }
     Script(acts)
 }
